@@ -18,7 +18,7 @@ MANIFEST = dict(
          "(C16's regenerated call-site table). Tie: differential correspondence on the FULL real stack (GeckoAsyncSpaMan + locator + spa + facade on the virtual loop, "
          "peer = the real simulator extended to apply writes / key presses and echo through its own report_changes): predicted emissions vs datagrams decoded by the real "
          "handlers; threaded twins on a stub spa. Search monitors: datagram count, pack type / versions / sequence range, state after echo, second command silent."
-         ' Since session 3: watercare_command_survives_polls (Model/WatercareRace.lean: one async_set_mode whose statement order is GENERATED, any number of facade polls, the protocol lock, any scheduler: once the command has returned spa and client both hold the requested mode) with the counterexample for the optimistic order; the real stack is exercised with a spa that holds its watercare answers, and with devices switched at the spa between facade commands. Session 4: a LONG session on one connection (140 pack commands, more than two cycles of the command sequence numbers): each still one well-formed in-range command, applied and read back. Session 4: a long session on the blocking client too (real GeckoSpa, real pump and switch classes, 150 commands decoded by the real SPACK decoder, stored and echoed). Also: a command issued while another exchange holds the connection for longer than a request timeout goes out exactly once. Session 5: every_plain_command_gets_its_task (AsyncTasks.add_task creates a task on every normal end, no test); two commands issued back to back through the facade\'s plain (non-awaitable) entry points are two command datagrams and both read back. Round 14: pending_report_scenarios (the spa\'s report of an applied change held back: change of mind, two writes behind a slow exchange); known finding D17 (lost update between bit fields of one word).',
+         ' Since session 3: watercare_command_survives_polls (Model/WatercareRace.lean: one async_set_mode whose statement order is GENERATED, any number of facade polls, the protocol lock, any scheduler: once the command has returned spa and client both hold the requested mode) with the counterexample for the optimistic order; the real stack is exercised with a spa that holds its watercare answers, and with devices switched at the spa between facade commands. Session 4: a LONG session on one connection (140 pack commands, more than two cycles of the command sequence numbers): each still one well-formed in-range command, applied and read back. Session 4: a long session on the blocking client too (real GeckoSpa, real pump and switch classes, 150 commands decoded by the real SPACK decoder, stored and echoed). Also: a command issued while another exchange holds the connection for longer than a request timeout goes out exactly once. Session 5: every_plain_command_gets_its_task (AsyncTasks.add_task creates a task on every normal end, no test); two commands issued back to back through the facade\'s plain (non-awaitable) entry points are two command datagrams and both read back. Round 14: pending_report_scenarios (the spa\'s report of an applied change held back: change of mind, two writes behind a slow exchange); known finding D17 (lost update between bit fields of one word). Round 15: blocking clients (bsessions) - a command through one client\'s device reaches its own spa only; every pump commanded a second time while its neighbours in the shared byte / word run.',
     note="The spa's reaction (store + echo; key press toggles the device behind the key) is the assumption the property prescribes, implemented by the harness peer and as "
          "definitions in the model. Target temperature conversion is C14's. Trusted: Lean kernel, translator for the tables, the harness.",
     technique="Lean 4 proofs by composition of C02/C05/C16 theorems + induction over command sequences; differential correspondence on the full real stack",
@@ -383,7 +383,8 @@ def run_snapshot(ctx, snapshot, lines, impl_ans, rng, long_session=True):
                     if was != want:
                         out.setdefault("nontrivial", set()).add((type(dev).__name__, dev._keypad_button != 0, want))
             # ---- pumps: every mode of every pump
-            for p in fac.pumps:
+            # (two rounds: in the second every pump is commanded while its NEIGHBOURS in the shared byte / word are running)
+            for p in list(fac.pumps) + list(fac.pumps):
                 ud = p._user_demand["demand"]
                 for mode in list(p.modes) + ["NOT-A-MODE"]:
                     if mode == "":
@@ -763,6 +764,29 @@ def threaded_long_session(ctx):
             break
 
 
+def check_blocking_clients(ctx, only=None):
+    """two BLOCKING clients in one process (real start_connect handshakes, stepped; sequential and overlapping start-up): a command
+    through one client's item is ONE set-value at that client's own spa, changes the item there, and nothing at the other spa"""
+    import bsessions
+    s1 = str(REPO / "tests" / "snapshots" / "inYT-Pump1Hi-2020-12-13 11_19_35.snapshot")
+    s2 = str(REPO / "tests" / "snapshots" / "inYT-Pump2Hi-2020-12-13 11_19_35.snapshot")
+    for overlapping in (False, True):
+        if only is not None and only != overlapping:
+            continue
+        res, a, b = bsessions.two_clients(s1, s2, overlapping)
+        ctx.count("evaluations")
+        ctx.hist("blocking_clients", "overlapping" if overlapping else "sequential")
+        probs = bsessions.judge(res)
+        for who, sess in (("a", a), ("b", b)):
+            n = len([c for c in sess.sim.commands if c.get("kind") == "set"])
+            if not probs and res.get(f"{who}_write") is not None and n != 1:
+                probs.append((f"{who}:command-count", {"set-value commands at this client's spa": n}))
+        for what, detail in probs:
+            ctx.violation(f"blocking-clients:{'overlapping' if overlapping else 'sequential'}:{what}", {"kind": "blocking-clients", "overlapping": overlapping},
+                          "a command through a client's item is one set-value at that client's own spa, applied there, nothing elsewhere", detail)
+            break
+
+
 def run(ctx):
     st = translate.run(["AccessorArith", "Packs", "Pinned", "PartialFacts", "SeqCounter", "WatercareSteps", "Skeletons"])
     ctx.cov["translator"] = st
@@ -776,6 +800,10 @@ def run(ctx):
     if not ctx.quick:
         chosen = snaps
     lines, impl_ans = [], []
+    try:
+        check_blocking_clients(ctx)
+    except Exception as e:  # noqa
+        ctx.obligation_broken("harness:blocking-clients", f"{type(e).__name__}: {e}")
     for sn_ in [s for s in chosen if os.path.basename(s).startswith(("default", "inYT-Pump1Hi"))] or chosen[:1]:
         try:
             pending_report_scenarios(ctx, sn_, "pending-report")
@@ -831,6 +859,11 @@ def run(ctx):
 
 
 def replay(inp):
+    if inp.get("kind") == "blocking-clients":
+        from common import Ctx
+        c = Ctx("C13", "quick", 0)
+        check_blocking_clients(c, only=inp["overlapping"])
+        return bool(c.violations), c.violations[0]["observed"] if c.violations else "each command reached its own spa once"
     if inp.get("kind") == "pending-report":
         from common import Ctx
         c = Ctx("C13", "quick", 0)
